@@ -27,5 +27,15 @@ PROPS['C04'] = {
             'Operator.__call__ (C03); A ** n unrolled for n <= 6 (bounded-in: n); Functional overloads are in C09',
     'technique': 'contract-based deductive verification: symbolic execution of the real source against sidecar contracts, structural induction over operator expressions, z3',
 }
+PROPS['C10'] = {
+    'level': 'proof',
+    'text': 'Deductive: for every pointwise / norm-coupled proximal _call (all option combinations), the default operators and the 9 expression '
+            'classes, the real Operator.__call__ is executed symbolically as op(x), op(x,out=y), op(x,out=x) on one symbolic input of arbitrary size; '
+            'the value left in x by the aliased call is proved equal to op(x) (z3). Expression classes are alias-safe given alias-safe operands, so '
+            'arbitrary wrappers follow by structural induction.',
+    'note': 'trusted: pyvc interpreter, element-API contracts (arithmetic C01, ufuncs pointwise like NumPy C17, weighted norms C02), reals (A1); '
+            'not reached: proj_l1/proj_simplex based proximals (sorting), Lambert-W, product-space (group) proximals',
+    'technique': 'contract-based deductive verification: symbolic execution of the real _call under the alias pattern x is out, relational obligation vs the non-aliased run, z3',
+}
 for _k in PROPS:
     NOT_APPLICABLE.pop(_k, None)
